@@ -129,8 +129,15 @@ def wrap_extend(lst, n):
     return lst * (n // l) + lst[:n % l]
 
 
+def _not(x):
+    # operator.not_ always returns a bool, composable objects define not_.
+    return x.not_() if hasattr(x, 'not_') else operator.not_(x)
+
+
 def list_unop(op, a, t=None):
     t = t or list
+    if op is operator.not_:
+        op = _not
     t_seq = (list, tuple)  # TODO: check.
     if isinstance(a, t_seq):
         if any(isinstance(i, t_seq) for i in a):
